@@ -83,10 +83,24 @@ def case(chk, i):
     rng = chk.rng("case", i)
     items = gen_allow.generate(rng)
     d = chk.dir("c%d" % (i % 32))
-    hdr = write(os.path.join(d, "a%d.h" % i), gen_allow.header(items))
     base_flags = ["--no-prepend-enum-name", "--no-layout-tests"] if rng.random() < 0.5 else ["--no-prepend-enum-name"]
+    # C++ variant: the same declaration graph inside one (possibly nested) namespace; patterns are then namespace-qualified paths,
+    # and a bare name must select nothing
+    nsr = chk.rng("ns", i)
+    ns = nsr.choice([None, None, None, ["net"], ["disk", "cache"]])
+    cargs = []
+    if ns:
+        items = [it for it in items if it.sub != "macro"]       # macros have no namespace
+        body = gen_allow.header(items)
+        text = "".join("namespace %s {\n" % n for n in ns) + body + "}\n" * len(ns)
+        hdr = write(os.path.join(d, "a%d.hpp" % i), text)
+        base_flags = base_flags + ["--enable-cxx-namespaces"]
+        cargs = ["--", "-x", "c++", "-std=c++14"]
+    else:
+        hdr = write(os.path.join(d, "a%d.h" % i), gen_allow.header(items))
+    nsp = "::".join(ns) + "::" if ns else ""
     full = os.path.join(d, "full%d.rs" % i)
-    rc, so, se, _ = sh([build.BINDGEN, hdr] + base_flags + ["-o", full], timeout=120, cpu=100)
+    rc, so, se, _ = sh([build.BINDGEN, hdr] + base_flags + ["-o", full] + cargs, timeout=120, cpu=100)
     name = "allow-%d" % i
     if rc != 0:
         return Verdict(INCONCLUSIVE, name, "bindgen rejects generated header: " + se[-300:])
@@ -101,6 +115,7 @@ def case(chk, i):
         r = chk.rng("sel", i, s)
         recursive = r.random() < 0.7
         flags, pats = [], []
+        bare = bool(ns) and chk.rng("bare", i, s).random() < 0.2
         kinds = r.sample(["type", "function", "var", "item"], r.randint(1, 3))
         for kd in kinds:
             pool = [it for it in items if (kd == "item" or it.kind == kd)]
@@ -110,7 +125,7 @@ def case(chk, i):
             alln = [n for it in items for n in ([it.name] if it.sub != "anon_enum" else it.members)]
             for _ in range(r.randint(1, 2)):
                 pat, form = pattern_for(r, names, alln)
-                flags += ["--allowlist-%s" % kd, pat]
+                flags += ["--allowlist-%s" % kd, (nsp + "(" + pat + ")") if (ns and not bare) else pat]
                 pats.append((kd, pat, form))
         block = []
         if r.random() < 0.35:
@@ -118,7 +133,7 @@ def case(chk, i):
             pool = [it for it in items if (bk == "item" or it.kind == bk) and it.sub != "anon_enum"]
             if pool:
                 bn = r.choice(pool).name
-                flags += ["--blocklist-%s" % bk, bn]
+                flags += ["--blocklist-%s" % bk, nsp + bn]
                 block.append((bk, bn))
         if not recursive:
             flags.append("--no-recursive-allowlist")
@@ -129,17 +144,36 @@ def case(chk, i):
             cands = [it.name] if it.sub != "anon_enum" else it.members
             if it.sub == "anon_enum" and kd == "item":
                 cands = it.members
-            return any(re.fullmatch(pat, c) for c in cands)
+            # an unqualified pattern is matched against the qualified path like any other (wild cards may still reach into the namespace)
+            return any(re.fullmatch(pat, (nsp + c) if bare else c) for c in cands)
         R = set(it.name for it in items if any(matches(kd, pat, it) for kd, pat, _ in pats))
         B = set(it.name for it in items for bk, bn in block if (bk == "item" or it.kind == bk) and it.name == bn)
+        anyroot = bool(R)
         R -= B
-        if not R:
+        if not R and (not bare or anyroot):
+            continue
+        if bare and not anyroot:
+            # unqualified patterns match no item of the namespace: nothing of the header may be emitted
+            o = os.path.join(d, "bare%d_%d.rs" % (i, s))
+            rc, so, se, _ = sh([build.BINDGEN, hdr] + base_flags + flags + ["-o", o] + cargs, timeout=120, cpu=100)
+            cname = "%s-s%d-bare" % (name, s)
+            if rc != 0:
+                out.append(Verdict(INCONCLUSIVE, cname, "bindgen failed: " + se[-300:]))
+                continue
+            inv = inventory(o)
+            em, _asr = emitted(inv) if "error" not in inv else ({}, {})
+            got = sorted(it.name for it in items if any(n in em for n in rust_names(it)))
+            if got:
+                out.append(Verdict(VIOLATED, cname, "unqualified patterns %s select items of namespace %s: %s" % ([p_[1] for p_ in pats], nsp, got[:8]),
+                                   files={"header.hpp": open(hdr).read(), "flags.txt": " ".join(base_flags + flags), "allowlisted.rs": open(o).read()}))
+            else:
+                out.append(Verdict(HELD, cname, obs={"bare_pattern_selections": 1}, nontrivial=True, key=cname))
             continue
         if any(kd in ("type", "item") and matches_synthetic(pat) for kd, pat, _ in pats):
             out.append(Verdict(HELD, "%s-s%d" % (name, s), obs={"selections_skipped_synthetic_name_pattern": 1}))
             continue
         o = os.path.join(d, "sel%d_%d.rs" % (i, s))
-        rc, so, se, _ = sh([build.BINDGEN, hdr] + base_flags + flags + ["-o", o], timeout=120, cpu=100)
+        rc, so, se, _ = sh([build.BINDGEN, hdr] + base_flags + flags + ["-o", o] + cargs, timeout=120, cpu=100)
         cname = "%s-s%d" % (name, s)
         files = {"header.h": open(hdr).read(), "flags.txt": " ".join(base_flags + flags)}
         if rc != 0:
@@ -206,7 +240,8 @@ def case(chk, i):
             if sorted(map(str, a)) != sorted(map(str, fas.get(t, []))):
                 problems.append("layout assertions of %s differ from the un-allowlisted bindings" % t)
         obs = {"selections": 1, "items_compared_textually": ntok, "selected_roots": len(R), "closure_size": len(C), "emitted": len(E),
-               "pattern_form." + pats[0][2]: 1, "recursive": int(recursive), "with_blocklist": int(bool(block))}
+               "pattern_form." + pats[0][2]: 1, "recursive": int(recursive), "with_blocklist": int(bool(block)),
+               "namespaced_selections": int(bool(ns))}
         if recursive and not problems and not B:
             w = write(os.path.join(d, "w%d_%d.rs" % (i, s)), '#![allow(warnings)]\ninclude!("%s");\n' % o)
             rcr, sor, ser, _ = sh(["rustc", "--edition", "2021", "--crate-type", "lib", "--emit=metadata", "-o", os.path.join(d, "w%d_%d.rmeta" % (i, s)), w], timeout=120)
